@@ -895,7 +895,11 @@ impl ProtocolState {
                     }
                     MqttPacket::Publish(publish) => {
                         if publish.duplicate {
-                            self.resubmit_operation_queue.push_front(id);
+                            // a retransmitted QoS 2 publish whose PUBREL is being encoded is still in the
+                            // pending publish table, which is moved to the resubmit queue further down
+                            if !self.pending_publish_operations.contains_key(&publish.packet_id) {
+                                self.resubmit_operation_queue.push_front(id);
+                            }
                         } else if publish.qos == QualityOfService::ExactlyOnce && operation.qos2_pubrel.is_some() {
                             self.high_priority_operation_queue.push_front(id);
                         } else if does_packet_pass_offline_queue_policy(&operation.packet, &self.config.offline_queue_policy) {
